@@ -38,7 +38,7 @@ def family(ctx: Ctx) -> List[Tuple[str, str, Dict[str, Any]]]:
             spec = dict(spec, single=name.startswith("a/"))
         out.append((name, src, spec))
     # spellings of the constant, gtxn forms read with `txn GroupIndex == i` around
-    for sp in ("pushint", "intc", "hex", "oct"):
+    for sp in ("pushint", "intc", "hex", "oct", "intcd"):
         for op in ("<=", "<"):
             for o in ("fc", "cf"):
                 out.append((f"c/{sp}-{op}-{o}", tg.emit(tg.Program((tg.Check(tg.Atom(FEE, op, (sp, 1000), o), "assert"), tg.Exit("approve")))), {"single": True}))
